@@ -257,7 +257,7 @@ def r_transl(ctx):
 
 def _array_roles(fn):
     roles = {}
-    for s in fn.body:
+    for s in flow.stmts_of(fn, ast.Assign):
         if isinstance(s, ast.Assign) and isinstance(s.targets[0], ast.Name):
             v = s.value
             if is_const(v) and v.value == 0:
